@@ -27,6 +27,8 @@ sys.path.insert(0, str(VERIF / "harness" / "translators"))
 import tr_datatype  # noqa: E402
 import c01  # noqa: E402
 import c01_gen as G  # noqa: E402
+import c01_regimes as RG  # noqa: E402
+import c01_routes as RT  # noqa: E402
 
 TOL_PAIR = 1e-11
 PROPS = "TTProofs/Props/C02.lean"
@@ -117,8 +119,8 @@ class Runner:
         if not ok:
             self.failures.append({"relation": relation, "factor": 1.0, "a": a, "b": parts[0], "parts": parts, "value_a": va, "value_b": tot})
 
-    def pair(self, relation, a, b, bucket, key, factor=1.0, lean_b=True):
-        va = self.value(a)
+    def pair(self, relation, a, b, bucket, key, factor=1.0, lean_b=True, lean_a=True):
+        va = self.value(a, lean=lean_a)
         vb = self.value(b, lean=lean_b)
         ok = close(va * factor if va is not None else None, vb, TOL_PAIR)
         self.ck.case(key=(relation,) + tuple(key), bucket=bucket + "/" + relation,
@@ -446,6 +448,59 @@ def run(ck: Check):
         for subst in (["LG", "WAG", "MG94"] * 3 if thorough else ["LG", "WAG", "MG94"]):
             tree, names, seqs, base = gen_base(rng, 3 if subst == "MG94" else 4, subst=subst)
             variants_guarded(run_, rng, tree, names, seqs, base, "alphabets", exhaustive=False)
+        # ---- fourth-wave checklist: HOW the object is reached
+        # (1) construction routes: the route-built object is one more way of writing the same thing down
+        route_failures = []
+        for i in range(24 if thorough else 6):
+            try:
+                case = G.gen_case(rng, rng.choice([3, 4]), subst=rng.choice(["JC69", "HKY", "GTR", "LG", "GeneralNonSymmetric"]), special=True,
+                                  nsites=rng.randint(2, 4))
+                RT.check_routes(ck, case, rng, c01.impl_path, route_failures, bucket="routes")
+            except InfraError:
+                raise
+            except Exception as e:  # noqa: BLE001
+                ck.mismatch("construction routes could not be evaluated", {"error": repr(e)[:300]})
+        for f in route_failures:
+            run_.failures.append({"relation": "route/" + f["route"], "factor": 1.0, "a": f["case"], "b": f["case"], "route": f["route"],
+                                  "value_a": f["baseline"], "value_b": f.get("value"), "error": f.get("error")})
+        # (2) the tree-model option use_postorder_indices only renumbers the leaves: taxa order must still not matter,
+        #     and the value must be that of the same specification without the option
+        for rooting in ("unrooted", "time", "unrooted", "time") if thorough else ("unrooted", "time"):
+            try:
+                tree, names, seqs, base = gen_base(rng, 4, rooting=rooting, subst=rng.choice(["HKY", "GTR"]))
+                if (base.get("clock") or {}).get("kind") == "simple":
+                    # per-branch rates are addressed by node index, which this option changes: use one rate for all branches
+                    base["clock"] = {"kind": "strict", "rate": rng.uniform(0.02, 0.3)}
+                base["tree_options"] = {"use_postorder_indices": True}
+                leaves = [x.name for x in tree.leaves()]
+                t1 = leaves[1:] + leaves[:1]
+                t2 = rng.sample(names, len(names))
+                a = G.materialise(tree, t1, names, seqs, base)
+                b = G.materialise(tree, t2, names, seqs, base)
+                plain = dict(a)
+                plain.pop("tree_options")
+                kid = (G.newick(tree, lengths=False), rooting, tuple(t1), tuple(t2))
+                run_.pair("perm-taxa/use_postorder_indices", a, b, "options", kid, lean_a=False, lean_b=False)
+                run_.pair("option-absent-vs-use_postorder_indices", plain, a, "options", kid, lean_b=False)
+            except InfraError:
+                raise
+            except Exception as e:  # noqa: BLE001
+                ck.mismatch("option pairs could not be evaluated", {"error": repr(e)[:300]})
+        # (3) dtype regimes / grad modes / copies as pair relations: the same specification evaluated under default
+        #     float32 with float64 parameters, under no_grad, after deepcopy, after .cpu() must give the plain value
+        regime_failures = []
+        for kind in ("dtype-default32-params64", "grad", "cpu", "to-float32", "immutable"):
+            for _ in range(3 if thorough else 1):
+                try:
+                    case = G.gen_case(rng, 4, subst=rng.choice(["JC69", "HKY"]), site=rng.choice(["constant", "invariant"]), nsites=3)
+                    res = RG.run_probe({"kind": kind, "case": case})
+                    ck.case(key=("regime", kind, case["newick"]), bucket="regime/" + kind)
+                    if not res["ok"]:
+                        regime_failures.append((kind, case, res))
+                except InfraError:
+                    raise
+                except Exception as e:  # noqa: BLE001
+                    ck.mismatch("regime probe could not be evaluated", {"kind": kind, "error": repr(e)[:300]})
         # GeneralDataType alphabets (user-supplied codes + ambiguity map): column relations
         for _ in range(40 if thorough else 8):
             try:
@@ -469,7 +524,26 @@ def run(ck: Check):
         if drv:
             drv.close()
 
+    SIG = {"dtype-default32-params64": "TreeLikelihoodModel:dtype-regime", "to-float32": "TreeLikelihoodModel:to-dtype",
+           "cpu": "TreeLikelihoodModel:device-move"}
+    seen_sig = set()
+    for kind, case, res in regime_failures:
+        sig = SIG.get(kind, "TreeLikelihoodModel:" + kind)
+        if sig in seen_sig:
+            continue
+        seen_sig.add(sig)
+        ck.violation(sig, f"the same specification evaluated in the regime '{kind}' does not give the plain value: "
+                     + json.dumps({k: v for k, v in res.items() if k not in ("where", "ok")}, default=str)[:300],
+                     {"probe": {"kind": kind, "case": case}, "result": res, "replay_cmd": "./check C02 --replay <this file>"})
     fails = run_.failures
+    opt = [f for f in fails if "use_postorder_indices" in f["relation"]]
+    if opt:
+        f = opt[0]
+        ck.violation("option:use_postorder_indices",
+                     f"with use_postorder_indices the value depends on the order of Taxa / differs from the specification without the option "
+                     f"({f['relation']}: {f['value_a']} vs {f['value_b']}; {len(opt)} failing pairs)",
+                     {"pair": f, "replay_cmd": "./check C02 --replay <this file>"})
+        fails = [f for f in fails if f not in opt]
     if fails:
         fails.sort(key=lambda f: (len(f["a"]["taxa"]), len(json.dumps(f["a"]))))
         f = fails[0]
@@ -480,7 +554,7 @@ def run(ck: Check):
             f"({len(fails)} failing pairs, relations {rels}; smallest has {len(f['a']['taxa'])} taxa)",
             {"pair": f, "broken_obligations": broken, "mismatches": ck.mismatches[:3], "replay_cmd": "./check C02 --replay <this file>"},
         )
-    elif not ok or ck.mismatches:
+    elif not opt and not regime_failures and (not ok or ck.mismatches):
         ck.violation(
             "C02:unproved",
             "C02 theorems or the model/implementation correspondence no longer check "
@@ -493,7 +567,26 @@ def run(ck: Check):
 def replay(path: str) -> int:
     c01.setup_torch()
     obj = json.loads(Path(path).read_text())
+    if obj.get("probe"):
+        res = RG.run_probe(obj["probe"])
+        print(f"regime {obj['probe']['kind']}: {json.dumps({k: v for k, v in res.items() if k != 'where'}, default=str)[:500]}; {'ok' if res['ok'] else 'VIOLATES'}")
+        return 0 if res["ok"] else 1
     f = obj.get("pair")
+    if f and f.get("route"):
+        import random
+        import tempfile
+
+        rng = random.Random(0)
+        try:
+            v0 = c01.impl_value(RT.build_route(f["a"], "baseline", rng))
+            with tempfile.TemporaryDirectory() as tmp:
+                v = c01.impl_value(RT.build_route(f["a"], f["route"], rng, tmp))
+        except Exception as e:  # noqa: BLE001
+            print(f"route {f['route']}: raised {e!r}; VIOLATES")
+            return 1
+        bad = not close(v, v0, 1e-13)
+        print(f"route {f['route']}: {v!r}; from_json on the nested JSON: {v0!r}; {'VIOLATES' if bad else 'ok'}")
+        return 1 if bad else 0
     if not f:
         print("replay names broken obligations only:", obj.get("broken_obligations"), obj.get("mismatches"))
         return 1
